@@ -230,6 +230,9 @@ def refused_inputs(r, genuine, peer, mic_now, plain=None):
         out["wrong_title"] = peer.ggc(p, ic=mic_now + 5, title=b"OTHER001")
         out["old_counter"] = peer.ggc(p, ic=mic_now)
         out["zero_counter"] = peer.ggc(p, ic=0)
+        # an authentic exception-response reporting an invocation-counter error with a counter of the attacker's choosing
+        out["exception_counter_error_high"] = peer.ggc(b"\xd8\x01\x06" + (11259375).to_bytes(4, "big"), ic=mic_now + 1)
+        out["exception_counter_error_low"] = peer.ggc(b"\xd8\x01\x06" + (0).to_bytes(4, "big"), ic=mic_now + 1)
         out["plain_response"] = p
         out["plain_notification"] = plain_apdu(17)
         out["stray_aare"] = Peer(True, suite=peer.suite, ic=mic_now + 7, ek=peer.ek, ak=peer.ak, title=b"EVIL0001").aare(hls=True, challenge=b"\xEE" * 16)
